@@ -64,7 +64,7 @@ def mkscratch(prefix="vjl-"):
 def child_env(extra=None, hashseed="0"):
     env = dict(os.environ)
     pp = [VERIF, REPO]
-    if os.environ.get("VERIF_USE_DEPS") == "1":
+    if os.environ.get("VERIF_USE_DEPS") == "1" or (extra or {}).get("VERIF_USE_DEPS") == "1":
         pp.append(DEPS)
     env["PYTHONPATH"] = os.pathsep.join(pp)
     env["PYTHONHASHSEED"] = str(hashseed)
@@ -594,3 +594,23 @@ def ensure_shim():
 
 if __name__ == "__main__":
     sys.exit(main(sys.argv[1], sys.argv[2:]))
+
+
+def run_repo_tests_with_contracts(test_files, timeout=900):
+    """run some of the repository's own test modules with vlib/contracts_plugin.py loaded; returns the plugin's state or None"""
+    ensure_deps("icontract")
+    d = mkscratch("vjl-contracts-")
+    try:
+        out = os.path.join(d, "contract.json")
+        env = child_env({"VERIF_CONTRACT_OUT": out, "VERIF_USE_DEPS": "1"})
+        for k in ("OPENBLAS_NUM_THREADS", "OMP_NUM_THREADS", "MKL_NUM_THREADS"):
+            env.pop(k, None)   # the repository's conftest asserts that these are unset
+        r = run_proc([PY, "-m", "pytest", "-q", "-p", "no:cacheprovider", "-p", "vlib.contracts_plugin"] +
+                     [os.path.join(REPO, t) for t in test_files], timeout, env=env, cwd=d)
+        try:
+            with open(out) as f:
+                return json.load(f), r
+        except (OSError, ValueError):
+            return None, r
+    finally:
+        shutil.rmtree(d, ignore_errors=True)
